@@ -225,6 +225,26 @@ UnitsPtr Model::takeUnits(const std::string &name)
 bool Model::replaceUnits(size_t index, const UnitsPtr &units)
 {
     bool status = false;
+    auto oldUnits = Model::units(index);
+    if ((units == nullptr) || (oldUnits == nullptr)) {
+        return false;
+    }
+    if (oldUnits == units) {
+        return true;
+    }
+
+    // Detach the replacement from the model that currently holds it.
+    auto previousParent = std::dynamic_pointer_cast<Model>(units->parent());
+    if (previousParent != nullptr) {
+        auto &siblings = previousParent->pFunc()->mUnits;
+        auto it = std::find(siblings.begin(), siblings.end(), units);
+        if (it != siblings.end()) {
+            siblings.erase(it);
+        }
+        units->pFunc()->removeParent();
+        index = size_t(std::find(pFunc()->mUnits.begin(), pFunc()->mUnits.end(), oldUnits) - pFunc()->mUnits.begin());
+    }
+
     if (removeUnits(index)) {
         pFunc()->mUnits.insert(pFunc()->mUnits.begin() + ptrdiff_t(index), units);
         units->pFunc()->setParent(shared_from_this());
